@@ -52,6 +52,7 @@ type Scenario struct {
 	Wildcard       bool              `json:"wildcard"`   // corebgp listens on 0.0.0.0 instead of 127.0.0.1
 	StartStalled   bool              `json:"start_stalled"` // the remote's accept queue is full before the peer starts
 	StartRefused   bool              `json:"start_refused"` // nothing listens on the remote's port before the peer starts
+	FinalCloseMs   int               `json:"final_close_ms"` // how long the teardown waits for Close (default 8000)
 	FirstOnly      bool              `json:"first_only"` // plugin script (on_open, handler, delays) applies to the first session only
 }
 
@@ -636,6 +637,13 @@ func (r *runner) step(st []any) error {
 		} else {
 			wg.Wait()
 		}
+	case "stop_reading": // the remote stops reading this connection (its receive window fills up)
+		if cr := r.conns[st[1].(string)]; cr != nil && cr.c != nil {
+			cr.c.SetReadDeadline(time.Now()) // nolint: errcheck
+			if tc, ok := cr.c.(*net.TCPConn); ok {
+				tc.SetReadBuffer(2048) // nolint: errcheck
+			}
+		}
 	case "drain": // forget outbound connections the remote has not looked at yet
 		for {
 			select {
@@ -822,6 +830,10 @@ func runScenario(sc *Scenario) *Result {
 		}
 	}
 	// teardown: Close must return; Serve must return
+	fcms := sc.FinalCloseMs
+	if fcms == 0 {
+		fcms = 8000
+	}
 	t0 := time.Now()
 	closed := make(chan struct{})
 	go func() { srv.Close(); close(closed) }()
@@ -829,7 +841,7 @@ func runScenario(sc *Scenario) *Result {
 	case <-closed:
 		r.plug.log("API-RETURN", "final-close", "")
 		res.API = append(res.API, APICall{Name: "final-close", Ms: time.Since(t0).Milliseconds(), At: r.ms()})
-	case <-time.After(8 * time.Second):
+	case <-time.After(time.Duration(fcms) * time.Millisecond):
 		res.API = append(res.API, APICall{Name: "final-close", Err: "TIMEOUT", Ms: time.Since(t0).Milliseconds(), At: r.ms()})
 	}
 	if !sc.NoServe {
@@ -840,7 +852,7 @@ func runScenario(sc *Scenario) *Result {
 			} else if err != nil {
 				res.ServeErr = "other:" + err.Error()
 			}
-		case <-time.After(3 * time.Second):
+		case <-time.After(time.Duration(min(fcms, 3000)) * time.Millisecond):
 			res.ServeErr = "TIMEOUT"
 		}
 	}
